@@ -62,7 +62,7 @@ property holds of what an observer sees. It is FALSE of the code (theorems `infl
 `stoptask_loses_ingest_backlog`, `udf_stop_loses_backlog`, `loopback_stop_deadlocks` below), hence only stated. -/
 def stop_delivers_all_stmt : Prop :=
   ∀ (cfg : Cfg) (kinds : List Kind) (n : Nat) (sched : List Act),
-    cfg.hookLock = false → cfg.alertLeak = false → cfg.barrierGuard = true →
+    cfg.hookLock = false → cfg.alertLeak = false → cfg.barrierGuard = true → cfg.influxEarlyAbort = false →
     let s := run cfg (init kinds n) sched
     s.ph = .finished → holds (outcomeOf s) = true
 
@@ -112,24 +112,25 @@ enabled, the stop has returned and all goroutines are gone. FALSE for loopback n
 hence only stated. -/
 def stop_terminates_stmt : Prop :=
   ∀ (cfg : Cfg) (kinds : List Kind) (n : Nat) (sched : List Act),
-    cfg.hookLock = false → cfg.alertLeak = false → 1 ≤ cfg.cap → kinds ≠ [] →
+    cfg.hookLock = false → cfg.alertLeak = false → cfg.influxEarlyAbort = false → 1 ≤ cfg.cap → kinds ≠ [] →
     let s := run cfg (init kinds n) sched
     Quiescent cfg s → s.stopped = true
 
-/-- **No deadlock, no leak**: any chain of pass / httpPost / alert / influxDBOut / FAILING nodes (no loopback
+/-- **No deadlock, no leak**: any chain of pass / httpPost / alert / influxDBOut (repaired) / barrier / FAILING nodes (no loopback
 node: `loopback_stop_deadlocks`; no UDF node: `udf_above_failed_node_blocks_stop` — a UDF node is only safe
 while nothing below it fails, which this theorem does not yet separate), any edge buffer size ≥ 1, any number of points, StopTask or Close requested at ANY moment, ANY
 schedule: a state in which no goroutine can move is a state in which the stop has returned and every node
 goroutine, write-buffer goroutine, handler goroutine and the throughput goroutine has exited. Together with
 `every_action_decreases_measure`: every schedule ends, after at most `mu (init …)` steps, and it ends there. -/
 theorem stop_terminates (cfg : Cfg) (kinds : List Kind) (n : Nat) (sched : List Act)
-    (hhook : cfg.hookLock = false) (hleak : cfg.alertLeak = false) (hcap : 1 ≤ cfg.cap) (hne : kinds ≠ [])
+    (hhook : cfg.hookLock = false) (hleak : cfg.alertLeak = false) (hea : cfg.influxEarlyAbort = false)
+    (hcap : 1 ≤ cfg.cap) (hne : kinds ≠ [])
     (hk : ∀ k ∈ kinds, isLoop k = false) (hu : ∀ k ∈ kinds, isUdf k = false) :
     let s := run cfg (init kinds n) sched
     Quiescent cfg s →
       s.stopped = true ∧ stopCompletes (outcomeOf s) = true ∧ allExited (outcomeOf s) = true := by
   intro s hq
-  have hd : DInv s := dinv_run hleak (dinv_init kinds n hk hu) sched
+  have hd : DInv s := dinv_run hleak hea (dinv_init kinds n hk hu) sched
   have hlen : s.nodes ≠ [] := by
     intro h0
     have := run_nodes_length (cfg := cfg) (s := init kinds n) sched
@@ -137,7 +138,7 @@ theorem stop_terminates (cfg : Cfg) (kinds : List Kind) (n : Nat) (sched : List 
     have h2 : (init kinds n).nodes.length = kinds.length := by simp [init]
     have : kinds.length = 0 := by rw [← h2, ← this]; exact h1
     exact hne (List.length_eq_zero_iff.mp this)
-  rcases progress_or_stopped hd hcap hhook hleak hlen with hp | hst
+  rcases progress_or_stopped hd hcap hhook hleak hea hlen with hp | hst
   · exact absurd hp (quiescent_not_progress hq)
   · exact ⟨hst, stopped_terminated hst⟩
 
@@ -145,12 +146,13 @@ theorem stop_terminates (cfg : Cfg) (kinds : List Kind) (n : Nat) (sched : List 
 has returned an error (a UDF process died, a child edge was aborted …) and nothing can move any more, the stop
 has returned and every goroutine of the task is gone: the property holds of what the observer sees. -/
 theorem others_still_terminate (cfg : Cfg) (kinds : List Kind) (n : Nat) (sched : List Act)
-    (hhook : cfg.hookLock = false) (hleak : cfg.alertLeak = false) (hcap : 1 ≤ cfg.cap) (hne : kinds ≠ [])
+    (hhook : cfg.hookLock = false) (hleak : cfg.alertLeak = false) (hea : cfg.influxEarlyAbort = false)
+    (hcap : 1 ≤ cfg.cap) (hne : kinds ≠ [])
     (hg : cfg.barrierGuard = true) (hk : ∀ k ∈ kinds, isLoop k = false) (hu : ∀ k ∈ kinds, isUdf k = false) :
     let s := run cfg (init kinds n) sched
     Quiescent cfg s → s.nodes.any (·.failed) = true → holds (outcomeOf s) = true := by
   intro s hq hf
-  have h := stop_terminates cfg kinds n sched hhook hleak hcap hne hk hu hq
+  have h := stop_terminates cfg kinds n sched hhook hleak hea hcap hne hk hu hq
   exact holds_of (noCrash_of (nopanic_run hg (nopanic_init kinds n) sched)) h.2.1 h.2.2 (allDelivered_of_failed hf)
 
 /-- Non-vacuity of `others_still_terminate`: `stream → httpPost → failing node (after 1 message) → httpPost`, 3
@@ -170,12 +172,13 @@ example :
 extended ends in a state of which the WHOLE property holds (stop returned, no goroutine left, every output was
 handed every accepted point). -/
 theorem close_stops_and_delivers (cfg : Cfg) (kinds : List Kind) (n : Nat) (sched : List Act)
-    (hhook : cfg.hookLock = false) (hleak : cfg.alertLeak = false) (hcap : 1 ≤ cfg.cap) (hne : kinds ≠ [])
+    (hhook : cfg.hookLock = false) (hleak : cfg.alertLeak = false) (hea : cfg.influxEarlyAbort = false)
+    (hcap : 1 ≤ cfg.cap) (hne : kinds ≠ [])
     (hclose : cfg.viaClose = true) (hg : cfg.barrierGuard = true) (hk : ∀ k ∈ kinds, losslessKind n k = true) :
     let s := run cfg (init kinds n) sched
     Quiescent cfg s → holds (outcomeOf s) = true := by
   intro s hq
-  have h := stop_terminates cfg kinds n sched hhook hleak hcap hne (fun k hm => losslessKind_not_loop (hk k hm))
+  have h := stop_terminates cfg kinds n sched hhook hleak hea hcap hne (fun k hm => losslessKind_not_loop (hk k hm))
     (fun k hm => losslessKind_not_udf (hk k hm)) hq
   exact (stop_delivers_all_partial cfg kinds n sched hclose hg hk h.1).1
 
@@ -213,11 +216,12 @@ theorem barrier_timer_sends_on_closed_edge :
     [.node 0 .exit, .node 1 .timerFire], by decide⟩
 
 
-/-- finding `influxdbout-stop-drops-backlog`: `stream → influxDBOut.buffer(2)`, one accepted point sitting in the
-node's input edge, TaskMaster.Close: the stop runs flush() and abort() first, the node then takes the point and
-`enqueue` drops it on `<-w.stopping`. The stop completes, every goroutine exits, and the point is gone. -/
+/-- defect repaired by 4fb4805 (`Cfg.influxEarlyAbort = true` is the code before; it was the known finding
+`influxdbout-stop-drops-backlog`): `stream → influxDBOut.buffer(2)`, one accepted point sitting in the node's input
+edge, TaskMaster.Close: the stop runs flush() and abort() first, the node then takes the point and `enqueue` drops
+it on `<-w.stopping`. The stop completes, every goroutine exits, and the point is gone. -/
 theorem influx_stop_loses_backlog :
-    ∃ sched, (runStrict cfgClose1 (init [.pass, .influx 2] 1) sched).map
+    ∃ sched, (runStrict { cfgClose1 with influxEarlyAbort := true } (init [.pass, .influx 2] 1) sched).map
       (fun s => (s.stopped, s.accepted, s.nodes.map (·.deliv), s.nodes.map (·.lost))) = some (true, 1, [0, 0], [0, 1]) :=
   ⟨feed1 ++ stops 2 ++ [.forkExit] ++ stops 5 ++ [.node 0 .exit] ++ stops 3 ++ [.node 1 .helperExit, .stop,
      .node 1 .take, .node 1 .enqDrop, .node 1 .exit, .stop, .thrExit, .stop, .stop], by decide⟩
@@ -260,6 +264,15 @@ theorem udf_above_failed_node_blocks_stop :
     .write, .forkTake, .forkLock, .forkPut, .node 0 .take, .node 0 .put, .node 1 .take,
     .write, .forkTake, .forkLock, .forkPut, .node 0 .take, .node 0 .put,
     .write, .forkTake, .forkLock, .forkPut, .node 0 .take] ++ stops 5 ++ [.thrExit], by decide⟩
+
+/-- … with the repaired code (the node's deferred stopBuffer flushes and stops the write buffer once the input has
+been consumed) the same backlog is written: a schedule of `stream → influxDBOut.buffer(2)` stopped by Close with
+the point still in the node's input edge ends with the point delivered and nothing lost. -/
+theorem influx_stop_repaired :
+    ∃ sched, (runStrict cfgClose1 (init [.pass, .influx 2] 1) sched).map
+      (fun s => (s.stopped, s.accepted, s.nodes.map (·.deliv), s.nodes.map (·.lost))) = some (true, 1, [0, 1], [0, 0]) :=
+  ⟨feed1 ++ stops 2 ++ [.forkExit] ++ stops 5 ++ [.node 0 .exit] ++ stops 2 ++
+     [.node 1 .take, .node 1 .put, .node 1 .closeOut, .node 1 .helperExit, .node 1 .exit, .stop, .thrExit, .stop, .stop], by decide⟩
 
 /-- defect repaired by 97356b1 (`Cfg.hookLock = true` is the code before): stop right after start with an
 alert node — the node needs tm.mu to register its delete hook, the stop holds tm.mu and waits for the node. -/
